@@ -28,8 +28,12 @@ func NewTrackStakeChangesDecorator(rk keeper.Keeper, sk types.StakingKeeper) Tra
 
 // implement the AnteDecorator interface
 func (t TrackStakeChangesDecorator) AnteHandle(ctx sdk.Context, tx sdk.Tx, simulate bool, next sdk.AnteHandler) (sdk.Context, error) {
-	// loop through all the messages and check if the message type will change stake by more than 5%
+	// loop through all the messages and check if the transaction as a whole will change stake by more than 5%.
+	// The amounts of all staking messages in the transaction are accumulated, so that splitting a large
+	// stake change over several messages of one transaction cannot get around the bound.
 	var msgAmount math.Int
+	totalIncrease := math.ZeroInt()
+	totalDecrease := math.ZeroInt()
 	for _, msg := range tx.GetMsgs() {
 		switch msg := msg.(type) {
 		case *stakingtypes.MsgCreateValidator:
@@ -64,14 +68,17 @@ func (t TrackStakeChangesDecorator) AnteHandle(ctx sdk.Context, tx sdk.Tx, simul
 		if err != nil {
 			return ctx, err
 		}
-		changeAmt := currentAmount.Add(msgAmount)
 		if msgAmount.IsNegative() {
+			totalDecrease = totalDecrease.Add(msgAmount.Neg())
+			changeAmt := currentAmount.Sub(totalDecrease)
 			// subtract 5 percent from last updated amount
 			allowedLowerBound := lastupdated.Amount.Sub(lastupdated.Amount.QuoRaw(20))
 			if changeAmt.LT(allowedLowerBound) {
 				return ctx, errors.New("total stake decrease exceeds the allowed 5% threshold within a twelve-hour period")
 			}
 		} else {
+			totalIncrease = totalIncrease.Add(msgAmount)
+			changeAmt := currentAmount.Add(totalIncrease)
 			// add 5 percent to last updated amount
 			allowedUpperBound := lastupdated.Amount.Add(lastupdated.Amount.QuoRaw(20))
 			if changeAmt.GT(allowedUpperBound) {
